@@ -5,6 +5,7 @@ import (
 	"context"
 	"encoding/hex"
 	"fmt"
+	"io"
 	"os"
 	"os/exec"
 	"path/filepath"
@@ -35,6 +36,9 @@ type Case struct {
 	AllowIO   bool     `json:"allow_io"`   // false: NoExec/NoFileWrites/NoFileReads set
 	Expect    string   `json:"expect"`     // "" (anything but a crash) | "error" | "ok"
 	ExpectWhy string   `json:"expect_why"` // oracle used when Expect is set
+	ExpectOutHex string `json:"expect_out_hex"` // with Expect "ok": the exact output
+	Cuts      []int    `json:"cuts"`       // api: delivery of the input: sizes of the successive Reads (0 = a Read returning no bytes); nil = one piece
+	LastEOF   bool     `json:"last_eof"`   // api: the final Read returns its bytes together with io.EOF
 	Cfg       string   `json:"cfg"`        // api: name of a Config fixture applied last (hostile struct fields)
 	Files     map[string]string `json:"files"` // cli: files created in the scratch working directory (name -> hex content)
 }
@@ -203,6 +207,48 @@ func modeOf(s string) (interp.IOMode, bool) {
 	return interp.DefaultMode, false
 }
 
+// chunkReader delivers the input in Reads of chosen sizes (what a pipe, a socket or a buffer
+// boundary does); bytes beyond the listed sizes are delivered in one final Read.
+type chunkReader struct {
+	data    []byte
+	cuts    []int
+	pos, k  int
+	lastEOF bool
+}
+
+func newChunkReader(data string, cuts []int, lastEOF bool) *chunkReader {
+	return &chunkReader{data: []byte(data), cuts: append([]int(nil), cuts...), lastEOF: lastEOF}
+}
+
+func (c *chunkReader) Read(p []byte) (int, error) {
+	if c.pos >= len(c.data) && c.k >= len(c.cuts) {
+		return 0, io.EOF
+	}
+	want := len(c.data) - c.pos
+	if c.k < len(c.cuts) {
+		if c.cuts[c.k] < want {
+			want = c.cuts[c.k]
+		}
+	}
+	n := want
+	if n > len(p) {
+		n = len(p)
+	}
+	copy(p, c.data[c.pos:c.pos+n])
+	c.pos += n
+	if c.k < len(c.cuts) {
+		if n == want {
+			c.k++
+		} else {
+			c.cuts[c.k] -= n
+		}
+	}
+	if c.lastEOF && c.pos >= len(c.data) && c.k >= len(c.cuts) {
+		return n, io.EOF
+	}
+	return n, nil
+}
+
 // runAPI: parser.ParseProgram + interp under recover().
 func runAPI(c *Case) (o Outcome) {
 	defer func() {
@@ -229,6 +275,9 @@ func runAPI(c *Case) (o Outcome) {
 		Environ: []string{"HOME", "/", "K", "v"},
 		NoExec:  !c.AllowIO, NoFileWrites: !c.AllowIO, NoFileReads: !c.AllowIO,
 	}
+	if c.Cuts != nil {
+		cfg.Stdin = newChunkReader(unhx(c.InputHex), c.Cuts, c.LastEOF)
+	}
 	im, hdr := modeOf(c.InMode)
 	cfg.InputMode, cfg.CSVInput.Header = im, hdr
 	cfg.OutputMode, _ = modeOf(c.OutMode)
@@ -245,6 +294,9 @@ func runAPI(c *Case) (o Outcome) {
 		st, err := p.ExecuteContext(ctx, cfg)
 		if c.Exec == "reuse" {
 			cfg.Stdin = strings.NewReader(unhx(c.InputHex))
+			if c.Cuts != nil {
+				cfg.Stdin = newChunkReader(unhx(c.InputHex), c.Cuts, c.LastEOF)
+			}
 			p.ResetVars()
 			st, err = p.ExecuteContext(ctx, cfg)
 		}
@@ -363,6 +415,9 @@ func (c *Case) Detail(o Outcome) map[string]any {
 		"case": c, "program": show(unhx(c.SrcHex)), "input": show(unhx(c.InputHex)),
 		"got_panic": o.Panic, "got_site": o.Site, "got_status": o.Status, "got_error": show(o.Err),
 		"got_output": show(string(o.Out)), "expected": "an exit status or an error value, no panic",
+	}
+	if c.Cuts != nil {
+		d["delivery"] = fmt.Sprintf("input delivered in Reads of sizes %v (rest in one Read), io.EOF with the last bytes: %v", c.Cuts, c.LastEOF)
 	}
 	if c.Kind == "cli" {
 		d["argv"] = fmt.Sprintf("%q", unhxs(c.ArgsHex))
